@@ -286,38 +286,46 @@ def r13(ctx, R):
              '(total - reserved) * allocation_ratio < used + running sum '
              '(further disjuncts only if subsumed by it)',
              src(caps[0].test), func=f, node=caps[0])
-    # skip only for amount == 0, after the running sum was updated
-    conts = [x for x in own_nodes_of(lp) if isinstance(x, ast.Continue)]
+    # skip only for amount == 0, after the running sum was updated: stated
+    # over branch literals, so "if amount == 0: continue" and "if amount !=
+    # 0: <checks>" are one shape
+    zero = normform.Cmp(normform.Poly.atom('amount'), '==0')
+
+    def only_nonzero(node):
+        """Every literal selecting node says amount != 0."""
+        bad = []
+        for e, pol in C.skip_conds(node, lp):
+            cm = nz.cmp(e)
+            if cm is not None and not pol:
+                cm = cm.negate()
+            if cm != zero.negate():
+                bad.append(ast.unparse(e) + ('' if pol else ' [neg]'))
+        return bad
     okskip = True
-    why = '%d continue' % len(conts)
-    skip_ifs = []
-    for c in conts:
-        ifs = C.guarding_ifs(c, lp)
-        cm = nz.cmp(ifs[0][0].test) if len(ifs) == 1 else None
-        if cm != normform.Cmp(normform.Poly.atom('amount'), '==0'):
-            okskip = False
-            why = 'continue under %s' % [src(i[0].test) for i in ifs]
-        else:
-            skip_ifs.append(ifs[0][0])
-            if sums and not g.dominates(sums[0], ifs[0][0]):
+    why = 'ok'
+    for name, lst in (('constraint', cons), ('capacity', caps)):
+        for x in lst:
+            bad = only_nonzero(x)
+            if bad:
                 okskip = False
-                why = 'the skip precedes the running-sum update'
+                why = '%s guard is also skipped under %s' % (name, bad)
+    for sm in sums[:1]:
+        bad = C.skip_conds(sm, lp)
+        if bad:
+            okskip = False
+            why = 'the running-sum update is conditional: %s' % [
+                ast.unparse(e) for e, _p in bad]
     R.ob('R1.3', 'check:skip-only-zero', okskip,
-         'the only skipped allocations are those with amount == 0, after '
-         'the running sum was updated', why, func=f)
-    # every iteration passes both guards (or the skip / a raise)
+         'the only skipped allocations are those with amount == 0, and the '
+         'running sum is updated for every allocation', why, func=f)
+    # every non-skipped iteration reaches both guards
     for name, lst in (('constraint', cons), ('capacity', caps)):
         if len(lst) != 1:
             continue
-        via = {lst[0]} | set(conts)
-        ok = g.must_pass(lp.body[0], lp, via) or lp.body[0] in via
-        ifs = C.guarding_ifs(lst[0], lp)
-        R.ob('R1.3', 'check:%s-guard-on-every-iteration' % name,
-             ok and not ifs,
-             'every non-skipped allocation is tested', 'conditional: %s' % [
-                 src(i[0].test) for i in ifs] if ifs else (
-                 'ok' if ok else 'an iteration can bypass the guard'),
-             func=f, node=lst[0])
+        bad = only_nonzero(lst[0])
+        R.ob('R1.3', 'check:%s-guard-on-every-iteration' % name, not bad,
+             'every non-skipped allocation is tested',
+             'conditional: %s' % bad if bad else 'ok', func=f, node=lst[0])
     # a missing inventory row raises InvalidInventory
     okm = False
     why = 'no guarded lookup of the usage row'
@@ -334,6 +342,23 @@ def r13(ctx, R):
                     and subs:
                 okm = True
                 why = '%s -> %s' % (hts, rs)
+    # ... or the membership-test form: if <key> not in <map>: raise
+    for x in own_nodes_of(lp):
+        if isinstance(x, ast.If) and x.body and isinstance(
+                x.body[-1], ast.Raise) and x.body[-1].exc is not None:
+            r = ctx.raises.exc_name(f, x.body[-1].exc)
+            for e, pol in C.lits(x.test, True, []):
+                if isinstance(e, ast.Compare) and len(e.ops) == 1 and (
+                        isinstance(e.ops[0], ast.NotIn) and pol or
+                        isinstance(e.ops[0], ast.In) and not pol) and r and \
+                        ctx.raises.is_subclass(r, INVALID_INV):
+                    mp = src(e.comparators[0])
+                    # the map is subscripted with that key afterwards
+                    if any(isinstance(y, ast.Subscript) and src(
+                            y.value) == mp and src(y.slice) == src(e.left)
+                            for y in own_nodes_of(lp)):
+                        okm = True
+                        why = '%s -> %s' % (src(x.test), r)
     R.ob('R1.3', 'check:missing-inventory', okm,
          'an allocation for a class without an inventory row raises '
          'InvalidInventory', why, func=f)
